@@ -337,7 +337,8 @@ theorem pause_spec_u {c : Cfg} (hc : CfgOK c) {t0 : Nat} (ho : ordered c = false
     obtain ⟨lg, pk, sc, ib, e, hsub, _⟩ := hst
     rw [e]
     refine ⟨Or.inr ⟨hph, ⟨⟨hgt.idle.running, hgt.idle.jobs, hgt.idle.jobsSet, hgt.idle.callId_le,
-        fun i hi => hgt.idle.parked_lt i (hsub.subset hi), hgt.idle.parked_nodup.sublist hsub⟩,
+        fun i hi => hgt.idle.parked_lt i (hsub.subset hi), hgt.idle.parked_nodup.sublist hsub,
+        Or.inr (fun i hi => hgt.stale i (hsub.subset hi))⟩,
       ⟨hgt.clean.running, hgt.clean.jobs, hgt.clean.jobsSet, hgt.clean.calling⟩, hgt.noexc, hgt.rem, hgt.nodup,
       hgt.hung, hgt.noiter, fun i hi => hgt.stale i (hsub.subset hi)⟩, hft⟩, ?_⟩
     intro _
